@@ -1,5 +1,7 @@
 import Driver.Common
 import Model.Diff
+import Model.FinDiff
+import Model.IdManager
 open Lean Drv Diff
 
 partial def parseE (j : Json) : Except String (E Float) := do
@@ -38,6 +40,27 @@ def parseEnv (j : Json) : Except String (Env Float) := do
   let vs ← parsePairs (← j.getObjVal? "var")
   pure { par := lookupF ps, var := lookupF vs }
 
+/-- one recorded evaluation of the real function: point, value, gradient, Hessian -/
+structure Rec where
+  p : List Float
+  f : Float
+  g : List Float
+  h : List (List Float)
+
+def parseRec (j : Json) : Except String Rec := do
+  pure { p := ← floatList (← j.getObjVal? "p"), f := ← getFloat j "f", g := ← floatList (← j.getObjVal? "g"),
+         h := ← floatMat (← j.getObjVal? "h") }
+
+def samePoint (a b : List Float) : Bool := a.length == b.length && (List.zipWith (· == ·) a b).all id
+
+/-- the function under test as the table of the values the real function returned; a point that was
+never evaluated by the real code gives NaN (so that any disagreement on the points shows) -/
+def tableFun (n : Nat) (t : List Rec) (p : List Float) : Float × List Float × List (List Float) :=
+  let nan : Float := 0.0 / 0.0
+  match t.find? fun r => samePoint r.p p with
+  | some r => (r.f, r.g, r.h)
+  | none => (nan, List.replicate n nan, List.replicate n (List.replicate n nan))
+
 def handle (j : Json) : Except String Json := do
   let op ← getStr j "op"
   match op with
@@ -62,6 +85,31 @@ def handle (j : Json) : Except String Json := do
     match package fl with
     | none => pure (Json.mkObj [("refused", jBool true)])
     | some (g, h, b) => pure (Json.mkObj [("gradient", jBool g), ("hessian", jBool h), ("bhhh", jBool b)])
+  | "findiff" =>
+    -- tools.derivatives: evaluation points, findiff_g, findiff_h, check_derivatives on the recorded function
+    let x ← floatList (← j.getObjVal? "x")
+    let table ← (← getArr j "table").toList.mapM parseRec
+    let F := tableFun x.length table
+    let t : Float := FinDiff.tau
+    let c := FinDiff.checkDerivatives t F x
+    pure (Json.mkObj [("points", jMat (FinDiff.evalPoints t x)),
+                      ("steps", jFloats (x.map (FinDiff.fdStep t))),
+                      ("g", jFloats (FinDiff.findiffG t (fun p => (F p).1) x)),
+                      ("h", jMat (FinDiff.findiffH t (fun p => (F p).2.1) x)),
+                      ("cf", fbits c.f), ("cg", jFloats c.g), ("ch", jMat c.h),
+                      ("gdiff", jFloats c.gdiff), ("hdiff", jMat c.hdiff)])
+  | "prepare" =>
+    -- IdManager.prepare on the declared parameters and the columns of the database
+    let decls ← (← getArr j "decls").toList.mapM fun d => do
+      let a ← asArr d
+      match a.toList with
+      | [n, f] => pure ({ name := ← asStr n, fixed := ← asBool f, init := (0 : Nat) } : IdM.Decl String Nat)
+      | _ => throw "bad-op"
+    let cols ← strList (← j.getObjVal? "cols")
+    match IdM.prepare decls [] [] cols with
+    | .error dups => pure (Json.mkObj [("refused", jStrs dups)])
+    | .ok t => pure (Json.mkObj [("free", jStrs t.free), ("fixed", jStrs t.fixed),
+                                 ("ids", jArr (t.free.map fun n => match t.uid n with | some k => jNat k | none => Json.null))])
   | _ => throw "bad-op"
 
 def main : IO Unit := Drv.run handle
